@@ -972,6 +972,10 @@ func c11GenOne(r *Rng, sameSecondFamily bool) string {
 		if !ok {
 			continue
 		}
+		// a history that is present but holds no version (what "no rows, no error" from a store looks like)
+		if r.Chance(2) {
+			l = nil
+		}
 		// histories arrive in any order
 		if r.Chance(40) {
 			p := r.Perm(len(l))
